@@ -73,7 +73,10 @@ FILE_DECLS = [
 
 
 def normalise(asm):
-    return "\n".join(l for l in asm.splitlines() if not l.startswith("\t.file") and not l.startswith("\t.ident"))
+    # .file/.ident name the input; at -O0 gcc also emits `nop` where two statements would otherwise share an address -
+    # which depends on the *line layout* of the source, not on its meaning (an empty statement on its own line gets one)
+    return "\n".join(l for l in asm.splitlines()
+                     if not l.startswith("\t.file") and not l.startswith("\t.ident") and l.strip() != "nop")
 
 
 def gcc_asm(text, opt):
